@@ -32,6 +32,14 @@ def impl_apply(names, via="identifiers"):
     from curves import tiny_curve
     import warnings
     idnt = tiny_curve()
+    if via == "recorded-tip-position":
+        # a recording that already holds a "tip position" column (e.g. exported after tip-sample separation
+        # and loaded again): the order rules are about the list, not about the columns of the data
+        from curves import make_indentation
+        import numpy as np
+        f_, h_, s_ = (np.asarray(idnt[c]) for c in ("force", "height (measured)", "segment"))
+        idnt = make_indentation(f_, h_, s_, tip=h_ - f_ / 0.05)
+        assert "tip position" in idnt.columns_innate
     from nanite import preproc
     try:
         with warnings.catch_warnings():
@@ -42,6 +50,8 @@ def impl_apply(names, via="identifiers"):
                 preproc.apply(idnt, preproc_names=list(names), options={})
             elif via == "keyword":
                 preproc.apply(apret=idnt, identifiers=list(names), options={})
+            elif via == "recorded-tip-position":
+                preproc.apply(idnt, list(names), options={})
             elif via == "indentation-tuple":
                 idnt.apply_preprocessing(tuple(names), options={})
             elif via == "identifiers-tuple":
@@ -223,7 +233,7 @@ def run(ctx):
                                                     for r in req[p])
         # every way of handing the list in gives the same verdict
         for via in ("preproc_names", "keyword", "indentation", "indentation-twice", "fit_model-twice",
-                    "indentation-tuple", "identifiers-tuple"):
+                    "indentation-tuple", "identifiers-tuple", "recorded-tip-position"):
             if via == "fit_model-twice" and (exp_ok or len(s) > 2):
                 continue          # (only rejected requests: an accepted one would start a fit)
             if len(s) <= 3 or sum(map(len, s)) % 7 == 0:
